@@ -489,6 +489,7 @@ func C16(p *core.Program, r *core.Report) {
 	r.Check(okKey, "single-instance/"+fname(rc)+"/key", "the registry key is the adapter's Address() for lookup and store", p.Pos(rc.Pos()), "", "a registry access does not use conv.Address()")
 
 	checkRegistryKeys(p, r)
+	checkReportChannelNeverClosed(p, r)
 	nWait := 0
 	for _, rel := range []string{claPkg, mtcpPkg, bbcPkg, "pkg/cla/tcpclv4", utilsPkg, "pkg/cla/tcpclv4/internal/stages", agentPkg, routingPkg, discPkg} {
 		nWait += checkNoWaitUnderSignallersLock(p, r, rel)
@@ -974,4 +975,44 @@ func checkNoWaitUnderSignallersLock(p *core.Program, r *core.Report, pkgRel stri
 		})
 	}
 	return n
+}
+
+// checkReportChannelNeverClosed: the elements' handlers forward their adapters' status into the Manager's inChnl (handed
+// to each element as convChnl). An element can still be running when the Manager shuts down - a registration whose
+// Start() returned late stops it only afterwards -, so nobody may ever close that channel: a send on it would panic.
+func checkReportChannelNeverClosed(p *core.Program, r *core.Report) {
+	nClose, nSend := 0, 0
+	var where string
+	for _, fn := range p.RepoFuncs() {
+		if fn.Pkg != p.Pkg(claPkg) || fn.Blocks == nil {
+			continue
+		}
+		core.EachInstr(fn, func(in ssa.Instruction) {
+			switch x := in.(type) {
+			case *ssa.Call:
+				if b, ok := x.Common().Value.(*ssa.Builtin); ok && b.Name() == "close" {
+					if ld, ok := core.Strip(x.Common().Args[0]).(*ssa.UnOp); ok && (core.IsField(ld.X, claPkg, "Manager", "inChnl") || core.IsField(ld.X, claPkg, "convergenceElem", "convChnl")) {
+						nClose++
+						where = p.Pos(in.Pos())
+					}
+				}
+			case *ssa.Send:
+				if ld, ok := core.Strip(x.Chan).(*ssa.UnOp); ok && core.IsField(ld.X, claPkg, "convergenceElem", "convChnl") {
+					nSend++
+				}
+			case *ssa.Select:
+				for _, st := range x.States {
+					if st.Dir == types.SendOnly {
+						if ld, ok := core.Strip(st.Chan).(*ssa.UnOp); ok && core.IsField(ld.X, claPkg, "convergenceElem", "convChnl") {
+							nSend++
+						}
+					}
+				}
+			}
+		})
+	}
+	r.Min("element sends into the Manager's report channel", 1)
+	r.Count("element sends into the Manager's report channel", nSend)
+	mh := p.Func(claPkg, "Manager", "handler")
+	r.Check(nClose == 0, "closing/"+fname(mh)+"/report-channel-never-closed", "the channel the adapters' handlers report into is never closed (an element started by a late registration may still send on it after the shutdown)", p.Pos(mh.Pos()), "", "closed at "+where+": an element's handler that forwards a status afterwards panics with 'send on closed channel'")
 }
